@@ -50,3 +50,23 @@ Example C05_fixing_premises_satisfiable :
   (exists a, sat a (with_rows (encode_kfd (exI 2)) (fix_rows exSs))).
 Proof. exact (conj ex_fix_safe (conj ex_fix_incompatible ex_fixed_model_feasible)). Qed.
 Print Assumptions C05_fixing_premises_satisfiable.
+
+(* ---- the route that is LIVE in the DAG models at the pinned commit: optimize_with_safety_as_subpath_constraints appends the safe
+   lists to the subpath constraints.  Adding SAFE lists as constraints (coverage fraction <= 1) never changes feasibility of the
+   k-model.  (The layer-fixing code of AbstractPathModelDAG, theorem above, is dormant at this commit: _apply_safety_optimizations
+   is never called in the DAG class; the cyclic class does fix walks, see Props/C06.v.) ---- *)
+Theorem C05_safety_as_subpath_constraints_preserves_feasibility :
+  forall (I : kfd_inst) (rank : node -> nat) (Rm : nat) (Ss : list (list PathEnc.edge)),
+  PathEncProofs.wf_graph (p_graph (f_base I)) -> p_allow_empty (f_base I) = false ->
+  (forall u v, In (u, v) (g_edges (p_graph (f_base I))) -> (rank u < rank v)%nat) -> (forall v, (rank v <= Rm)%nat) ->
+  (forall c e, In c (p_cons (f_base I) ++ Ss) -> In e c -> In e (g_edges (p_graph (f_base I))) /\ (0 <= elen (f_base I) e)%Q) ->
+  (p_cov (f_base I) <= 1)%Q ->
+  (forall P w, decomposition I P w -> constraints_covered (f_base I) P ->
+     forall S, In S Ss -> exists i, In i (layers (p_k (f_base I))) /\ incl S (EulerProofs1.pairs (P i))) ->
+  ((exists a, sat a (encode_kfd (add_cons I Ss))) <-> (exists a, sat a (encode_kfd I))).
+Proof. exact safety_as_constraints_preserves_feasibility. Qed.
+Print Assumptions C05_safety_as_subpath_constraints_preserves_feasibility.
+
+Example C05_safety_as_constraints_premises_satisfiable : exists a, sat a (encode_kfd (add_cons (exI 2) exSs)).
+Proof. exact ex_safety_as_constraints_feasible. Qed.
+Print Assumptions C05_safety_as_constraints_premises_satisfiable.
